@@ -7,7 +7,7 @@ LEVEL = "other"
 
 
 def run(rep, tier, seed):
-    proved_tier(rep, "C04", seed, expected_min_obligations=12)
+    proved_tier(rep, "C04", seed, expected_min_obligations=6)
     try:
         from checks import bounded_C04
     except ImportError:
